@@ -567,6 +567,10 @@ E('quadosc', ['cb:sinc_lim', 'I1inf'], kw={'omega': '=1'}, fam='I', tol=10, cost
 E('nsum', ['cb:invpow', 'I1inf'], fam='I', tol=10, cost=2, c10=False, maxprec=300,
   kw={'method': (0.5, lambda r, c: {'t': 'str', 'v': r.choice(['r+s', 'richardson', 'shanks', 'levin', 'alternating', 'euler-maclaurin', 'direct', 'r+s+e', 'l'])})})
 E('nsum', ['cb:altinv', 'I1inf'], key='nsum_alt', fam='I', tol=10, cost=2, c10=False, maxprec=300)
+E('nsum', ['cb:invpow', 'I1inf'], key='nsum_levin', fam='I', tol=10, cost=2, c10=False, maxprec=200,     # the Levin / Sidi accelerator objects
+  kw={'method': lambda r, c: {'t': 'str', 'v': r.choice(['levin', 'l', 'sidi', 'r+s+l', 'levin', 'alternating'])}})
+E('nsum', ['cb:geom', lambda r, c: L(I(0), {'t': 'attr', 'v': 'inf'})], key='nsum_geom_levin', fam='I', tol=10, cost=2, c10=False, maxprec=200,
+  kw={'method': lambda r, c: {'t': 'str', 'v': r.choice(['levin', 'sidi', 'shanks', 'richardson'])}})
 E('nsum', ['cb:geom', lambda r, c: L(I(0), {'t': 'attr', 'v': 'inf'})], key='nsum_geom', fam='I', tol=10, cost=2, c10=False, maxprec=300)
 E('nsum', ['cb:invpow', lambda r, c: L(I(1), I(r.randint(3, 30)))], key='nsum_fin', fam='I', tol=10, cost=1, c10=False)
 E('nprod', ['cb:prodterm', 'I1inf'], fam='I', tol=10, cost=3, c10=False, maxprec=120)
